@@ -328,7 +328,10 @@ def strrchr_s (dest dmax : Nat) (ch : Int) (destbos : Bos) : Prog (Nat × Nat) :
   match ← qChkS dest dmax destbos none with
   | some e => pure (e, 0)
   | none =>
-    if ch > 255 then do handlerS ESLEMAX; pure (ESLEMAX, 0)
+    -- `else { CHK_DEST_OVR; CHK_DMAX_MAX(RSIZE_MAX_STR) }` (fix: commit): a known object above the limit is rejected
+    -- here, with the code the handler gets, instead of by the inner strnlen_s with another one
+    if dmax > RSIZE_MAX_STR then do handlerS ESLEMAX; pure (ESLEMAX, 0)
+    else if ch > 255 then do handlerS ESLEMAX; pure (ESLEMAX, 0)
     else do
       let len ← strnlen_s dest dmax none
       if len ≠ 0 then memrchr_s dest (if dmax = len then dmax else len + 1) ch none
